@@ -55,11 +55,12 @@ func (b *builder) run() {
 	API(s.APIName, func() {
 		b.errors(s.Errors)
 		b.security(s.Security)
-		if s.APIPath != "" || len(s.HTTPErrs) > 0 {
+		if s.APIPath != "" || len(s.HTTPErrs) > 0 || len(s.APIParams)+len(s.APIHeaders)+len(s.APICookies)+len(s.APIRules) > 0 {
 			HTTP(func() {
 				if s.APIPath != "" {
 					Path(s.APIPath)
 				}
+				b.mapping(s.APIParams, s.APIHeaders, s.APICookies, s.APIRules, true)
 				b.responses(s.HTTPErrs)
 			})
 		}
@@ -69,7 +70,7 @@ func (b *builder) run() {
 		Service(svc.Name, func() {
 			b.errors(svc.Errors)
 			b.security(svc.Security)
-			hasHTTP := svc.Path != "" || len(svc.HTTPErrs) > 0 || len(svc.Files) > 0
+			hasHTTP := svc.Path != "" || len(svc.HTTPErrs) > 0 || len(svc.Files) > 0 || len(svc.Params)+len(svc.Headers)+len(svc.Cookies)+len(svc.Rules) > 0
 			if hasHTTP {
 				HTTP(func() {
 					if svc.Path != "" {
@@ -78,6 +79,7 @@ func (b *builder) run() {
 					for _, p := range svc.Paths {
 						Path(p)
 					}
+					b.mapping(svc.Params, svc.Headers, svc.Cookies, svc.Rules, true)
 					b.responses(svc.HTTPErrs)
 				})
 			}
@@ -481,15 +483,7 @@ func (b *builder) method(m *sp.Method) {
 					parts := strings.SplitN(r, " ", 2)
 					b.route(parts[0], parts[1])
 				}
-				for _, p := range h.Params {
-					Param(wire(p))
-				}
-				for _, p := range h.Headers {
-					Header(wire(p))
-				}
-				for _, p := range h.Cookies {
-					Cookie(wire(p))
-				}
+				b.mapping(h.Params, h.Headers, h.Cookies, h.Rules, false)
 				if h.MapParams == "*" {
 					MapParams()
 				} else if h.MapParams != "" {
@@ -545,6 +539,54 @@ func (b *builder) method(m *sp.Method) {
 			})
 		}
 	})
+}
+
+// mapping declares the HTTP mapping elements of one level (API, service or endpoint). An
+// element named by a MapRule is written with its explicit type and its own validation DSL
+// (Param("attr:wire", Int, func() { Minimum(1) })); a rule that no Map names declares a path
+// parameter bound by the level's path. With grouped, query string parameters are written inside
+// Params(func() { ... }) and headers inside Headers(func() { ... }) (the grouping forms of the DSL).
+func (b *builder) mapping(params, headers, cookies []sp.Map, rules []sp.MapRule, grouped bool) {
+	named := map[string]bool{}
+	args := func(m sp.Map) []any {
+		for _, r := range rules {
+			r := r
+			if r.Attr == m.Attr {
+				named[r.Attr] = true
+				return []any{b.dt(r.T), func() { b.valid(r.V) }}
+			}
+		}
+		return nil
+	}
+	decl := func() {
+		for _, p := range params {
+			Param(wire(p), args(p)...)
+		}
+	}
+	if grouped && len(params) > 0 {
+		Params(decl)
+	} else {
+		decl()
+	}
+	hdecl := func() {
+		for _, p := range headers {
+			Header(wire(p), args(p)...)
+		}
+	}
+	if grouped && len(headers) > 0 {
+		Headers(hdecl)
+	} else {
+		hdecl()
+	}
+	for _, p := range cookies {
+		Cookie(wire(p), args(p)...)
+	}
+	for _, r := range rules {
+		if !named[r.Attr] {
+			// no Map names it: a path parameter of this level's path
+			Param(r.Attr, args(sp.Map{Attr: r.Attr})...)
+		}
+	}
 }
 
 func wire(m sp.Map) string {
@@ -608,12 +650,7 @@ func (b *builder) responses(rs []sp.Resp) {
 			if r.ContentType != "" {
 				ContentType(r.ContentType)
 			}
-			for _, h := range r.Headers {
-				Header(wire(h))
-			}
-			for _, c := range r.Cookies {
-				Cookie(wire(c))
-			}
+			b.mapping(nil, r.Headers, r.Cookies, r.Rules, false)
 			b.body(r.Body)
 		}
 		if r.Error != "" {
